@@ -168,6 +168,11 @@ def run_pipeline(case):
     isrc = Source(src_kind)
     got = trace(lambda: glom(isrc, spec), isrc)
     where = {'spec': repr(spec), 'source': src_kind}
+    isrc2 = Source(src_kind)
+    again = trace(lambda: glom(isrc2, spec), isrc2)      # the same spec OBJECT a second time: nothing may be carried over
+    if [x[0] for x in again] != [x[0] for x in got]:
+        return R({'expected': 'second evaluation of the same spec object equals the first: %r' % ([x[0] for x in got],),
+                  'observed': repr([x[0] for x in again]), **where}, 'second-evaluation')
     oc = want[-1][0][0] if want else 'none'
     for k, (w, g) in enumerate(itertools.zip_longest(want, got)):
         if w is None or g is None:
@@ -261,7 +266,7 @@ def gen_terminals(tier):
 # ---------------------------------------------------------------------------
 # builder histories
 
-ITER_EVENTS = ['map-dbl', 'filter-odd', 'slice-1-4', 'limit-2', 'chunked-2', 'windowed-2', 'unique', 'takewhile-lt3', 'flatten', 'split-2']
+ITER_EVENTS = ['map-dbl', 'filter-odd', 'unique', 'limit-2', 'chunked-2', 'unique-mod3', 'slice-1-4', 'windowed-2', 'takewhile-lt3', 'flatten', 'split-2']
 
 
 def behaviour_iter(spec):
